@@ -308,6 +308,12 @@ func ruleGroupKey(groupID string) (string, error) {
 	return key, nil
 }
 
+// CheckRuleGroupID tells whether SaveRuleGroup and DeleteRuleGroup accept the group id.
+func CheckRuleGroupID(groupID string) error {
+	_, err := ruleGroupKey(groupID)
+	return err
+}
+
 // LoadRuleGroups loads all rule groups from storage.
 func (s *Storage) LoadRuleGroups(f func(k, v string)) error {
 	return s.LoadRangeByPrefix(ruleGroupPath+"/", f)
